@@ -166,6 +166,45 @@ def suite_teardown(ctx, n):
     ctx.add_suite("teardown", **st)
 
 
+def suite_reset_window(ctx, n):
+    """reset() while a timer callback of the previous run sits between its ownership check and the delivery (held there by a schedule
+    hook): the queue's cancel does not find that event any more; a reset interpreter behaves like a fresh one, so it must not arrive
+    in the next run either. Judged on the second run alone: every delayed event of the document is processed exactly once."""
+    rng = ctx.rng
+    lines, meta = [], []
+    for _ in range(n):
+        k = rng.randint(1, 3)
+        delays = sorted(rng.sample([20, 30, 40, 50], k))
+        hold = rng.choice([60, 80])
+        doc = ('<scxml xmlns="http://www.w3.org/2005/07/scxml" version="1.0" datamodel="null"><state id="s"><onentry>%s</onentry></state></scxml>'
+               % "".join('<send event="d%d" delay="%dms" id="id%d" uvid="%d"/>' % (i, d, i, 100 + i) for i, d in enumerate(delays)))
+        # block until the first timer is in its window (due + a few ms; it stays there for `hold` ms), then reset
+        ops = ["T", "q", "b:%d" % (delays[0] + rng.choice([8, 15, 25])), "q", "r", "q"] + ["b:40", "q"] * (4 + (max(delays) + k * hold) // 40) + ["w:60", "q"]
+        hooks = "delayq.timer.before_deliver=%d" % hold
+        for eng in ("large", "fast"):
+            lines.append("%s\t-\t%s\t%s\t%s" % (eng, ",".join(ops), hexs(doc), hooks)); meta.append((ops, hooks, doc, k))
+    H, _ = run_api(ctx, lines, want_driver=False)
+    st = dict(inputs=len(lines), as_fresh=0, reset_in_window=0, violations=0)
+    for l, h, (ops, hooks, doc, k) in zip(lines, H, meta):
+        th = h.split(" ")
+        bad = [t for t in th if t.startswith(BADTOK)]
+        why = None
+        if bad or th[-1] != "end" or "reset" not in th: why = "abnormal outcome %s" % (bad or th[-3:])
+        else:
+            r = th.index("reset")
+            if not any(t.startswith("bpe:d") for t in th[:r]): st["reset_in_window"] += 1      # nothing had been handed over when reset() ran
+            for i in range(k):
+                c = th[r:].count("bpe:d%d" % i)
+                if c != 1: why = "after reset() the event d%d was processed %d times (a fresh interpreter: once)" % (i, c)
+        if why is None:
+            st["as_fresh"] += 1; continue
+        st["violations"] += 1
+        if len(ctx.violations) < 4:
+            ctx.violation("resetwin-%d" % len(ctx.violations), "reset-in-window", [l],
+                          detail="operations %s with schedule hook %s: %s\ntrace: %s\ndocument: %s" % (",".join(ops), hooks, why, " ".join(t for t in th if not t.startswith(("cfg:", "ret:")))[:1200], doc))
+    ctx.add_suite("reset-in-window", **st)
+
+
 def run(ctx):
     ctx.setup(variants=("asan",))
     ctx.audit(THEOREMS, LEAN_FILES)
@@ -176,6 +215,8 @@ def run(ctx):
         tot += st["inputs"]
     suite_teardown(ctx, 150 if quick else 3000)
     tot += ctx.coverage["suites"]["teardown"]["inputs"]
+    suite_reset_window(ctx, 20 if quick else 400)
+    tot += ctx.coverage["suites"]["reset-in-window"]["inputs"]
     # the finalising step after cancel() / a top-level final state: every <onexit> block of every remaining state runs once, a failing
     # block does not take the later ones with it (cancelled_then_finalised; the family is shared with C07)
     from checks import c07
